@@ -195,7 +195,20 @@ def sampler_case(ctx, case):
         td2 = env.reset(TensorDict({"locs": src.clone()}, batch_size=[B]))
     sh = Shadow(ctx, dict(env=cfg["env"], k=cfg.get("k"), driver="sampler"), td, pdp, env)
     ctx.count("episodes")
+    td3 = None
+    if case.get("interleave"):
+        # history: a second search on OTHER instances of the same shape is alive on the same env object (two data-loader
+        # batches, a replayed memory): its steps alternate with the monitored ones and it is monitored as well
+        td3 = env.reset(batch_size=[B])
+        sh3 = Shadow(ctx, dict(env=cfg["env"], k=cfg.get("k"), driver="sampler", interleaved=True), td3, pdp, env)
+        sh.sig = dict(sh.sig, interleaved=True)
     for t in range(case.get("steps", 40)):
+        if td3 is not None:
+            a3 = env._random_action(td3)
+            td3.set("action", a3)
+            td3 = env.step(td3)["next"]
+            sh3.observe(td3, a3, "step")
+            ctx.count("c09_interleaved_steps")
         if case.get("jump_every") and (t + 1) % case["jump_every"] == 0:
             for _ in range(3):
                 td2.set("action", env._random_action(td2))
